@@ -78,8 +78,12 @@ impl Scenario for ToVecSc {
     let script = self.script.clone();
     Arc::new(move || {
       let script = script.clone();
+      let silent = !script.iter().any(|e| !matches!(e, Ev::N(_)));
+      let src_done = Arc::new(AtomicBool::new(false));
+      let src_done2 = src_done.clone();
       let src = Observable::<'static, i64>::create(move |s: Observer<'static, i64>| {
         let script = script.clone();
+        let src_done = src_done2.clone();
         shuttle::thread::spawn(move || {
           facade::log("h", 0, "", "src-start".into());
           for ev in script {
@@ -89,6 +93,7 @@ impl Scenario for ToVecSc {
               Ev::C => s.complete(),
             }
           }
+          src_done.store(true, Ordering::SeqCst);
         });
       });
       let mut fut = Box::pin(src.to_vec());
@@ -108,6 +113,17 @@ impl Scenario for ToVecSc {
             break;
           }
           Poll::Pending => {
+            if silent {
+              // a source that never terminates never wakes the executor: poll again (the model's
+              // spurious return from park) until the source thread is done, then stop
+              if src_done.load(Ordering::SeqCst) || polls > 50 {
+                facade::log("h", 0, "", "result GAVE-UP".into());
+                break;
+              }
+              shuttle::thread::yield_now();
+              facade::log("h", 0, "", "spurious".into());
+              continue;
+            }
             if polls > 50 {
               facade::log("h", 0, "", "result GAVE-UP".into());
               break;
